@@ -210,9 +210,9 @@ func (varsScen) Exec(w *World, cc any, prop string) *Result {
 		for _, v := range c.Vars {
 			found := false
 			for _, l := range lines {
-				tl := strings.TrimSpace(l)
-				if strings.HasPrefix(tl, v.Name) && strings.HasSuffix(strings.TrimRight(l, "\n"), model[v.Name]) &&
-					strings.TrimSpace(strings.TrimPrefix(tl, v.Name)) == strings.TrimSpace(model[v.Name]) {
+				// layout (padding, separators) is not specified: compare words
+				f := tableFields(l)
+				if len(f) >= 1 && f[0] == v.Name && strings.Join(f[1:], " ") == strings.Join(tableFields(model[v.Name]), " ") {
 					found = true
 				}
 			}
